@@ -44,16 +44,19 @@ def check_dfa(acc, spec, L, scheme='s', morph=False):
             acc.sample({'kind': 'DFA', 'Q': Q, 'Sigma': Sg, 'delta': ['{},{}->{}'.format(q, a, r) for (q, a), r in delta.items()], 'q0': q0, 'F': F, 'words_up_to': L, 'accepted_words': nacc, 'tested_words': nw})
 
 
-def check_nfa(acc, spec, L, scheme='s', eps='', enc='sparse', closures=True, morph=False):
+def check_nfa(acc, spec, L, scheme='s', eps='', enc='sparse', closures=True, morph=False, letters='ab'):
     from gambatools.nfa_algorithms import nfa_accepts_word, epsilon_closure
-    params = {'spec': spec, 'L': L, 'scheme': scheme, 'eps': eps, 'enc': enc, 'closures': closures}
+    params = {'spec': spec, 'L': L, 'scheme': scheme, 'eps': eps, 'enc': enc, 'closures': closures, 'letters': letters}
     rp = {'fn': 'mc.props.c01:one_nfa', 'mode': 'plain', 'params': params}
     inst = {'nfa': spec, 'scheme': scheme, 'eps': eps, 'enc': enc}
     if morph:
         rp = {'fn': 'mc.props.c01:t_morph', 'mode': 'plain', 'params': dict(acc.data.get('ctx', {}), upto=spec)}
         inst['presented_as'] = 'one live object rewritten in place after earlier queries'
-    Q, Sg, T, q0, F = spaces.nfa_parts(spec, scheme, eps)
-    ok, N = core.lib_call(acc, 'NFA()', inst, spaces.morph_nfa if morph else spaces.build_nfa, spec, scheme, eps, enc, repro=rp)
+    Q, Sg, T, q0, F = spaces.nfa_parts(spec, scheme, eps, letters)
+    if morph:
+        ok, N = core.lib_call(acc, 'NFA()', inst, spaces.morph_nfa, spec, scheme, eps, enc, repro=rp)
+    else:
+        ok, N = core.lib_call(acc, 'NFA()', inst, spaces.build_nfa, spec, scheme, eps, enc, letters, repro=rp)
     if not ok:
         return
     A = fa.from_parts(Q, Sg, T, q0, F, eps)
@@ -104,8 +107,8 @@ def one_dfa(acc, spec, L, scheme='s'):
     check_dfa(acc, spec, L, scheme)
 
 
-def one_nfa(acc, spec, L, scheme='s', eps='', enc='sparse', closures=True):
-    check_nfa(acc, spec, L, scheme, eps, enc, closures)
+def one_nfa(acc, spec, L, scheme='s', eps='', enc='sparse', closures=True, letters='ab'):
+    check_nfa(acc, spec, L, scheme, eps, enc, closures, letters=letters)
 
 
 def t_morph(acc, kind, space, L, shard, nshard, upto=None):
@@ -147,13 +150,39 @@ def _nfa_space(name):
         return spaces.nfas(n, k, t)
     if kind == 'chain':
         return spaces.nfa_chains(name[1])
+    if kind == 'rot':
+        return spaces.nfa_rotations(name[1])
     raise ValueError(name)
 
 
+def block_of(space):
+    if space[0] == 'nfa':
+        n = space[1]
+        return n if space[4] else n * 2 ** n
+    return 1
+
+
 def t_nfa(acc, space, L, shard, nshard, variants, closures=True):
-    for idx, spec in spaces.shard(_nfa_space(space), shard, nshard):
-        for (scheme, eps, enc) in variants:
-            check_nfa(acc, spec, L, scheme, eps, enc, closures)
+    def tup(x):
+        return tuple(tup(y) for y in x) if isinstance(x, list) else x
+    space = tup(space)
+    for idx, spec in spaces.shard_blocks(_nfa_space(space), shard, nshard, block_of(space)):
+        for v in variants:
+            (scheme, eps, enc) = v[:3]
+            check_nfa(acc, spec, L, scheme, eps, enc, closures, letters=(v[3] if len(v) > 3 else 'ab'))
+
+
+def t_collide(acc, n, t, L, shard, nshard):
+    """The same transition table read twice: once with 'b' as a letter (alphabet {a,b}, epsilon ''), once with 'b'
+    as the epsilon symbol (alphabet {a}); both orders, same process."""
+    for idx, s1 in spaces.shard_blocks(spaces.nfas(n, 1, t), shard, nshard, n * 2 ** n):
+        s2 = ('nfa', n, 2) + s1[3:]
+        if idx % 2:
+            check_nfa(acc, s2, L, 's', '', 'sparse', closures=True)
+            check_nfa(acc, s1, L, 's', 'b', 'sparse', closures=True)
+        else:
+            check_nfa(acc, s1, L, 's', 'b', 'sparse', closures=True)
+            check_nfa(acc, s2, L, 's', '', 'sparse', closures=True)
 
 
 ALL_VARIANTS = [('s', e, c) for e in ('', '_', 'ε') for c in ('sparse', 'empties', 'total')]
@@ -189,6 +218,13 @@ def plan(tier, seed):
     nfa(('chain', 4), 3, SPARSE, 2)
     nfa(('chain', 5), 3, SPARSE, 4)
     nfa(('chain', 6), 3, SPARSE, 8)
+    for s_ in range(4):
+        tasks.append(('plain', 'mc.props.c01:t_collide', {'n': 2, 't': 3, 'L': 3, 'shard': s_, 'nshard': 4}))
+    nfa(('nfa', 2, 1, None, False), 4, [('d', '', 'sparse', '01'), ('t', '', 'sparse'), ('k', '_', 'sparse')], 2)
+    nfa(('nfa', 2, 2, 3, False), 3, [('d', '', 'sparse', '01')], 4)
+    nfa(('nfa', 3, 1, 3, False), 4, [('d', '', 'sparse', '01')], 4)
+    nfa(('rot', 5), 6, SPARSE, 1, closures=False)
+    nfa(('rot', 6), 7, SPARSE, 2, closures=False)
     if tier == 'quick':
         nfa(('nfa', 2, 2, 4, False), 4, ALL_VARIANTS, 8)
         nfa(('nfa', 2, 2, None, False), 3, SPARSE, 16)
@@ -203,6 +239,9 @@ def plan(tier, seed):
         nfa(('nfa', 3, 2, 3, False), 4, SPARSE, 32)
         nfa(('nfa', 4, 1, 4, False), 5, SPARSE, 64, closures=True)
         bounds = {'DFA': 'n<=2,k<=2 L<=8; (3,1) L<=6; (3,2) L<=4; (4,1) L<=6', 'NFA': '(1,k),(2,1),(2,2) all x 3 eps x 3 encodings L<=4/5; (3,1,t<=4) 2 variants; (3,2,t<=3); (4,1,t<=4); eps-chains n=4..6'}
+    from mc.props import common
+    small = lambda name, p: name.endswith('t_nfa') and (p['space'][0] == 'chain' or (p['space'][0] == 'nfa' and p['space'][1] <= 2 and p['space'][2] == 1) or (p['space'][0] == 'nfa' and p['space'][1] == 3 and p['space'][2] == 1 and p['space'][3] == 4 and p['shard'] % 4 == 0))
+    tasks = tasks + common.ordered_copies(tasks, small)
     return {
         'tasks': tasks,
         'rule': 'every labelled DFA/NFA inside the bounds x every word up to L; an NFA counts once per (automaton, epsilon spelling, delta encoding); non-trivial = accepts some but not all tested words',
@@ -210,5 +249,7 @@ def plan(tier, seed):
         'exhaustive': True,
         'assumptions': ['NFA delta is a total function into P(Q): defaultdict or a dict defined on all of Q x (Sigma+eps) (doc/main.tex)',
                         'single-character symbols; epsilon spelled \'\', _ or ε',
-                        'small spaces are presented a second time through ONE live object whose fields are rewritten in place between instances (detects per-object caches)'],
+                        'small spaces are presented a second time through ONE live object whose fields are rewritten in place between instances (detects per-object caches)',
+                        'the variants (all q0, all F) of one transition structure run back to back in one worker; the same table is also read with b as a letter and with b as the epsilon symbol',
+                        'the small NFA spaces and the epsilon chains are executed a second and third time under the canonical and the reversed global set order (instrumented), names include digit / substring / keyword-like schemes'],
     }
